@@ -222,8 +222,9 @@ func getSegmentStartsFromVideo(parsedMp4 *mp4.File, segDurMS uint32) (timeScale 
 		}
 	}
 	syncPoints = make([]syncPoint, 0, len(syncSampleNrs))
-	var segmentStep = uint32(uint64(segDurMS) * uint64(timeScale) / 1000)
-	var nextSegmentStart uint32 = 0
+	// 64 bits: with a timescale of 10 000 000, 32 bits are used up after 7 minutes
+	var segmentStep = uint64(segDurMS) * uint64(timeScale) / 1000
+	var nextSegmentStart uint64 = 0
 	for _, sampleNr := range syncSampleNrs {
 		decodeTime, _ := stts.GetDecodeTime(sampleNr)
 		presTime := int64(decodeTime)
